@@ -65,9 +65,11 @@ pub const CHMAPS: u32 = 1;
 
 pub fn pcm_info_bytes(stream: u32) -> Vec<u8> {
     let mut v = (0x10u32 + stream).to_le_bytes().to_vec();
-    v.extend((1u32 << 2 | stream).to_le_bytes()); // features
-    v.extend((0x60u64 + stream as u64).to_le_bytes()); // formats
-    v.extend((0xC0u64 << stream).to_le_bytes()); // rates
+    // (Each mask also has a bit the driver crate has no name for - a later revision of the
+    // specification, a vendor extension: what is reported is what the device said.)
+    v.extend((1u32 << 2 | stream | 1 << 9).to_le_bytes()); // features
+    v.extend((0x60u64 + stream as u64 | 1 << 40).to_le_bytes()); // formats
+    v.extend((0xC0u64 << stream | 1 << 30).to_le_bytes()); // rates
     v.push(stream as u8); // direction: stream 0 output, stream 1 input
     v.push(1 + stream as u8);
     v.push(2 + 2 * stream as u8);
@@ -214,7 +216,7 @@ impl TransportVisitor for V {
             let fm = snd.formats_supported(st).map(|x| x.bits());
             let ra = snd.rates_supported(st).map(|x| x.bits());
             let ch = snd.channel_range_supported(st);
-            if f != Ok(1 << 2 | st) || fm != Ok(0x60 + st as u64) || ra != Ok(0xC0u64 << st) || ch != Ok((1 + st as u8)..=(2 + 2 * st as u8)) {
+            if f != Ok(1 << 2 | st | 1 << 9) || fm != Ok(0x60 + st as u64 | 1 << 40) || ra != Ok(0xC0u64 << st | 1 << 30) || ch != Ok((1 + st as u8)..=(2 + 2 * st as u8)) {
                 viol("stream-capabilities", format!("stream {}: features {:?} formats {:?} rates {:?} channels {:?} differ from what the device reported", st, f, fm, ra, ch));
             }
         }
